@@ -267,6 +267,12 @@ def probe(cfg: Any, events: Optional[List[str]] = None, rounds: int = 2, want_nf
     interp = None
     old = signal.signal(signal.SIGALRM, _alarm)
     signal.alarm(budget_s)
+    # the sync engine's timer threads are parked under virtual time: an `after` of the machine must not fire
+    # because the probe happens to run slowly on a loaded host
+    from . import vthreads
+    vctl = vthreads.Controller()
+    patch = vthreads.patched(vctl)
+    patch.__enter__()
     try:
         out["stage"] = "create"
         machine = create_machine(cfg, logic=any_logic())
@@ -301,6 +307,11 @@ def probe(cfg: Any, events: Optional[List[str]] = None, rounds: int = 2, want_nf
                 interp.stop()
             except BaseException:  # noqa: BLE001
                 pass
+        try:
+            vctl.drain()
+        except BaseException:  # noqa: BLE001
+            pass
+        patch.__exit__(None, None, None)
     return out
 
 
